@@ -111,7 +111,12 @@ func (w *World) SnapOf(ctx sdk.Context) *Snap {
 		Responses: map[string]types.Response{}, Volumes: map[string]uint64{}, Earned: map[string]sdk.Int{},
 		EarnedRawKeys: map[string]string{}, OwnerEarned: map[string]sdk.Int{}, Bal: map[string]sdk.Int{},
 	}
-	s.Params = w.a.k.GetParams(ctx) // params live in the params module's store; read through its subspace
+	// params live in the params module's store; read them there, not through the keeper under test
+	if ss, ok := w.a.app.ParamsKeeper.GetSubspace(types.ModuleName); ok {
+		ss.GetParamSet(ctx, &s.Params)
+	} else {
+		s.Params = w.a.k.GetParams(ctx)
+	}
 	store := ctx.KVStore(w.a.app.GetKey(types.StoreKey))
 	h := sha256.New()
 	it := store.Iterator(nil, nil)
